@@ -432,8 +432,9 @@ def spec_set_end(pool, plinks, pre_l, pre_e, l, which, x):
                 ok = ok and (without(v._links, l) == without(pre_l[i], l)) and (count_is(v._links, l) == 1)
             else:
                 ok = ok and (v._links == pre_l[i] + [l])
-        elif (v is old) and not (v is keep):
-            # the previous vertex is detached, because it is no longer an end
+        elif (v is old) and (count_is(want_ends, v) == 0):
+            # the previous vertex is detached, because it is no longer an end (not the other end, and not a
+            # further vertex the link names)
             ok = ok and (v._links == without(pre_l[i], l))
         else:
             ok = ok and (v._links == pre_l[i])
